@@ -838,6 +838,41 @@ example :
     dbHistory r.groups r.st (fun p => if p = 2 then -1 else 7) 4 [2, 1] [(0, 1), (0, 0)]
       = some [(2, [((0, 1), 9), ((0, 0), -1)]), (1, [((0, 1), 7), ((0, 0), 7)])] := by decide
 
+/-! ## Histories by location -/
+
+/-- **history by location, selected steps**: for every requested parameter and every requested step at which the location was
+occupied, the value stored in the row OF THAT LOCATION (the default if the snapshot has no dataset for the parameter) -/
+theorem dbHistoryByLoc_value (groups : List PSnap) (dflt : Nat → Int) (L : Nat) (params : List Nat)
+    (steps : List (Nat × Nat)) (h : Hist) (hh : dbHistoryByLoc groups dflt L params steps = some h)
+    (p : Nat) (hp : p ∈ params) (k : Nat × Nat) (hk : k ∈ steps) (v : Int)
+    (hv : valAt (groups.map byLoc) L dflt k p = some v) :
+    lookupH h p k = some v := by
+  unfold dbHistoryByLoc at hh
+  rw [histLoop_lookup _ L params dflt steps [] h hh]
+  simp [hp, hk, hv]
+
+/-- … and a step at which the location was EMPTY (or was not requested) has no entry -/
+theorem dbHistoryByLoc_empty (groups : List PSnap) (dflt : Nat → Int) (L : Nat) (params : List Nat)
+    (steps : List (Nat × Nat)) (h : Hist) (hh : dbHistoryByLoc groups dflt L params steps = some h)
+    (p : Nat) (k : Nat × Nat) (hv : valAt (groups.map byLoc) L dflt k p = none) :
+    lookupH h p k = none := by
+  unfold dbHistoryByLoc at hh
+  rw [histLoop_lookup _ L params dflt steps [] h hh]
+  simp [hv, lookupH]
+
+/-- **the value at a location is the value of whatever object sat there**: in the snapshot `writePL` makes of state `st`, the
+row of location `L` holds, for any parameter, what the object whose serial number stands in that row had at the write (its
+value, or the default if unset) -/
+theorem writePL_location_value (st : PState) (dflt : Nat → Int) (layout locs : List Nat) (idx L serial p : Nat)
+    (hinv : liveAssigned st) (hL : locs.idxOf? L = some idx) (hs : layout[idx]? = some serial) :
+    valAt [byLoc (writePL st dflt layout locs)] L dflt (st.cycle, st.node) p = some (st.get dflt serial p) := by
+  unfold valAt
+  have e1 : (byLoc (writePL st dflt layout locs)).layout = locs := rfl
+  have e2 : ((byLoc (writePL st dflt layout locs)).cycle, (byLoc (writePL st dflt layout locs)).node) = (st.cycle, st.node) := rfl
+  simp only [List.find?_cons, e2, beq_self_eq_true, e1, hL, Option.map_some]
+  have e3 : storedValue (byLoc (writePL st dflt layout locs)) idx p dflt = storedValue (writeP st dflt layout) idx p dflt := rfl
+  rw [e3, writeP_storedValue st dflt layout idx serial p hinv hs]
+
 /-! ## Merging and splitting -/
 
 /-- is the group's (cycle, node) before the restart point? -/
